@@ -25,8 +25,8 @@ ID = "C14"
 LEAN_MODULES = ["MpfVerif.Props.C14"]
 PROPS_FILE = "MpfVerif/Props/C14.lean"
 MANIFEST = {
-  "text": "Proof on byte-level Lean models of the three incremental serial decoders and the FAST command writer: (1) for every byte-at-a-time decoder feed(a++b) = feed(feed a) b, hence frames and carried buffer of the FAST ('\\r') and PKONE ('E') decoders are independent of how the bytes were split into reads, and after any noise one delimiter restores exact in-order delivery; (2) a transcription of OPP's _parse_msg (part_msg, _lost_synch, the strlen>2 threshold, 7/11-byte frames, EOM) always terminates and, on every chunking, emits exactly the frames of a byte-at-a-time automaton on the concatenated bytes, its carried state being equal after normalisation (the raw carried pair does depend on the chunking); (3) the CRC-8 table regenerated from opp_rs232_intf.py on every run is a permutation (kernel-checked per entry) and therefore every single-byte error in data or CRC byte of a frame is detected; a frame with a wrong CRC changes no card state and produces no switch event; after any frame the reported switch states mirror old_state and a valid frame sets it to its payload; a FAST switch report sets exactly that switch, and after any list of SA: snapshots and -L:/ /L: events the state of every configured switch is what the last report mentioning it said (event: the reported logical state; snapshot: invert xor bit) while hw_switch_data is the last snapshot; (4) after any garbage plus 11 idle bytes the OPP automaton decodes every following well-formed frame; (5) the writer keeps queue order at every point of every run. Flow control is a known finding (the writer never pauses; a lost response is never retried): proved only for disciplined senders resp. for responses that arrive, with witnesses. The models are tied to the real communicators by a correspondence run (incl. the real FAST platform booted on the repo's mock serial with the real switch controller for mixed snapshot/event sequences; generated streams, chunkings down to single bytes, corruptions, malformed frames, writer schedules) on every check.",
-  "note": "Trusted: Lean kernel + {propext, Classical.choice, Quot.sound}; the hand-written models in Model/Framing.lean (validated only by differential runs); the generator that extracts CRC8_LOOKUP; asyncio Queue/Event semantics for the writer. Known findings: the FAST writer does not pause for confirmations and never retries a lost response (D7); a frame that is not UTF-8 makes the FAST and the PKONE reader raise. Not modelled: config-phase FAST responses (ID/NN/DL/SL/CH), SA: snapshots shorter than the highest configured switch number (KeyError after a partial update), PKONE payload parsing and its in-flight counter, ignore_decode_errors=True (connect phase).",
+  "text": "Proof on byte-level Lean models of the three incremental serial decoders and the FAST command writer: (1) for every byte-at-a-time decoder feed(a++b) = feed(feed a) b, hence frames and carried buffer of the FAST ('\\r') and PKONE ('E') decoders are independent of how the bytes were split into reads, and after any noise one delimiter restores exact in-order delivery; (2) a transcription of OPP's _parse_msg (part_msg, _lost_synch, the strlen>2 threshold, 7/11-byte frames, EOM) always terminates and, on every chunking, emits exactly the frames of a byte-at-a-time automaton on the concatenated bytes, its carried state being equal after normalisation (the raw carried pair does depend on the chunking); (3) the CRC-8 table regenerated from opp_rs232_intf.py on every run is a permutation (kernel-checked per entry) and linear (kernel-checked) and therefore every single-byte error and every burst error confined to 8 consecutive bits, in data or CRC byte of a frame, is detected; a frame with a wrong CRC changes no card state and produces no switch event; after any frame the reported switch states mirror old_state and a valid frame sets it to its payload; a FAST switch report sets exactly that switch, and after any list of SA: snapshots and -L:/ /L: events the state of every configured switch is what the last report mentioning it said (event: the reported logical state; snapshot: invert xor bit) while hw_switch_data is the last snapshot; (4) after any garbage plus 11 idle bytes the OPP automaton decodes every following well-formed frame; every PKONE frame is handled without raising (non-UTF-8 frames are skipped) and well-formed frames after noise are delivered; (5) the writer keeps queue order at every point of every run. Flow control is a known finding (the writer never pauses; a lost response is never retried): proved only for disciplined senders resp. for responses that arrive, with witnesses. The models are tied to the real communicators by a correspondence run (incl. the real FAST platform booted on the repo's mock serial with the real switch controller for mixed snapshot/event sequences; generated streams, chunkings down to single bytes, corruptions, malformed frames, writer schedules) on every check.",
+  "note": "Trusted: Lean kernel + {propext, Classical.choice, Quot.sound}; the hand-written models in Model/Framing.lean (validated only by differential runs); the generator that extracts CRC8_LOOKUP; asyncio Queue/Event semantics for the writer. Known findings: the FAST writer does not pause for confirmations and never retries a lost response (D7); a frame that is not UTF-8 makes the FAST reader raise (deliberate re-raise outside the connect phase). Not modelled: config-phase FAST responses (ID/NN/DL/SL/CH), SA: snapshots whose announced byte count is consistent but which cover fewer switches than are configured (needs two corruptions; KeyError after a partial update), PKONE payload parsing and its in-flight counter, ignore_decode_errors=True (connect phase).",
   "technique": "Lean 4 theorems (induction over byte lists, simulation between loop transcription and automaton, decide +kernel over the regenerated CRC table) + differential correspondence with the real parsers and writer task",
   "translated": True,
  }
@@ -168,13 +168,25 @@ def bits_of(table, n):
     return "".join("1" if table.get(i, 0) else "0" for i in range(n)) or "-"
 
 
+got_warnings = {}
+
+
+def pk_skips(comm):
+    """frames skipped with the 'Interference / bad data' warning so far"""
+    return sum(1 for a in got_warnings[id(comm)] if a and "Interference" in str(a[0]))
+
+
 def make_pkone():
     from mpf.platforms.pkone.pkone_serial_communicator import PKONESerialCommunicator
     got = []
-    platform = SimpleNamespace(machine=SimpleNamespace(), log=logging.getLogger("x"), config={"debug": False},
+    warnings = []
+    log = SimpleNamespace(warning=lambda *a, **k: warnings.append(a), debug=lambda *a, **k: None,
+                          info=lambda *a, **k: None, error=lambda *a, **k: None)
+    platform = SimpleNamespace(machine=SimpleNamespace(), log=log, config={"debug": False},
                                process_received_message=lambda msg: got.append(msg))
     comm = PKONESerialCommunicator(platform, "p", 1)
     comm.messages_in_flight = 10 ** 9
+    got_warnings[id(comm)] = warnings
     return comm, got
 
 
@@ -292,7 +304,7 @@ def gen_fast_stream(r):
             s = ("%02X" if r.random() < 0.8 else "%02x") % n
             frames.append(((b"-L:" if r.random() < 0.5 else b"/L:") + s.encode(), "sw"))
         elif k < 0.7:
-            data = bytes(r.randrange(256) for _ in range(13))
+            data = bytes(r.randrange(256) for _ in range(14))
             frames.append((b"SA:0E," + data.hex().upper().encode(), "sa"))
         elif k < 0.8:
             frames.append((r.choice([b"WD:P", b"TL:P"]), "ign"))
@@ -302,7 +314,9 @@ def gen_fast_stream(r):
             frames.append((b"", "empty"))
         else:
             frames.append((r.choice([b"-L:G1", b"/L:", b"-L:0AZ", b"SA:0E", b"SA:0E,0G", b"SA:0E,012", b"SA:0E,00,00",
-                                     b"-L:Z", b"/L:1G"]), "malformed"))
+                                     b"-L:Z", b"/L:1G", b"SA:0E,00FF", b"SA:0E,", b"SA:0G," + b"00" * 14,
+                                     b"SA:0E," + b"FF" * 13, b"SA:0E," + b"00" * 15, b"SA:," + b"00" * 14]),
+                           "malformed"))
     return frames
 
 
@@ -403,8 +417,11 @@ def pk_run(chunks):
         n0 = len(got)
         k0 = comm.messages_in_flight
         e0 = len(escapes)
+        w0 = pk_skips(comm)
         pk_feed(comm, c, escapes)
-        per_chunk.append((got[n0:], bytes(comm.received_msg), k0 - comm.messages_in_flight, escapes[e0:].count("und")))
+        per_chunk.append((got[n0:], bytes(comm.received_msg), k0 - comm.messages_in_flight,
+                          escapes[e0:].count("und") + pk_skips(comm) - w0))
+    got_warnings.pop(id(comm), None)
     return got, escapes, per_chunk, comm
 
 
@@ -443,8 +460,18 @@ def pk_case(ctx, r, model):
         if got != base[1] or comm.received_msg != base[4].received_msg:
             ctx.fail("pkone-chunking", dict(case, chunks=[c.hex() for c in chunks]), {"got": got, "one_chunk": base[1]})
             return
-    if not clog and base[1] != [f.decode() for f in frames if f and f.decode() not in ignored]:
-        ctx.fail("pkone-delivery", case, {"got": base[1]})
+    # every well-formed frame is delivered, also after noise: the stream cut at the delimiters, minus empty, undecodable
+    # and ignored frames
+    want = []
+    for f in data.split(b"E")[:-1]:
+        try:
+            t = f.decode()
+        except UnicodeDecodeError:
+            continue
+        if t and t not in ignored:
+            want.append(t)
+    if base[1] != want:
+        ctx.fail("pkone-delivery", case, {"got": base[1], "want": want})
     if model is not None:
         for chunks, got, escapes, per_chunk, comm in results[:3]:
             model.ask("reset")
@@ -523,8 +550,20 @@ def opp_case(ctx, r, model, mode=None):
         if idxs:
             corrupted_index = r.choice(idxs)
             fb = bytearray(items[corrupted_index][0])
-            pos = r.randrange(2, len(fb))
-            fb[pos] ^= r.randrange(1, 256)
+            if r.random() < 0.5:
+                pos = r.randrange(2, len(fb))
+                fb[pos] ^= r.randrange(1, 256)
+            else:
+                # a burst of at most 8 consecutive bits across two adjacent bytes (low j bits, then high 8-j bits)
+                pos = r.randrange(2, len(fb) - 1)
+                j = r.randrange(0, 9)
+                e1, h = r.randrange(2 ** j), r.randrange(2 ** (8 - j))
+                if e1 == 0 and h == 0:
+                    h = 1 if j < 8 else 0
+                    e1 = 1 if j == 8 else e1
+                fb[pos] ^= e1
+                fb[pos + 1] ^= h * 2 ** j
+                meta["burst"] = [j, e1, h]
             meta["pos"] = pos
             items = items[:corrupted_index] + [(bytes(fb), ("corrupt",) + items[corrupted_index][1])] + items[corrupted_index + 1:]
             data = b"".join(b for b, _ in items)
@@ -810,10 +849,14 @@ class FastRig:
         return "".join(str(d[i]) for i in sorted(d)) or "-"
 
     def feed(self, chunk, escapes):
-        try:
-            self.comm.parse_incoming_raw_bytes(chunk)
-        except Exception as e:
-            escapes.append(type(e).__name__ + ": " + str(e)[:80])
+        data = chunk
+        for _ in range(len(chunk) + 3):      # an escaping exception is recorded, then parsing resumes on the buffer
+            try:
+                self.comm.parse_incoming_raw_bytes(data)
+                break
+            except Exception as e:
+                escapes.append(type(e).__name__ + ": " + str(e)[:80])
+                data = b""
         if b"\r" in chunk:
             try:
                 self.t.advance_time_and_run(.125)
@@ -859,8 +902,13 @@ def gen_sa_seq(r, rig):
             else:
                 items.append((f, ("ev", n, closed)))
         elif k < 0.93:
-            items.append((r.choice([b"-L:G1", b"/L:", b"-L:0AZ", b"SA:0E", b"SA:0E,0G", b"SA:0E,00,00", b"/L:1G"]),
-                          ("malformed",)))
+            if r.random() < 0.5:
+                # a snapshot cut short on the wire (whole bytes or in the middle of one): must change nothing
+                full = bytes(r.randrange(256) for _ in range(14)).hex().upper()
+                items.append((("SA:0E," + full[:r.randrange(0, 28)]).encode(), ("malformed", "truncated-sa")))
+            else:
+                items.append((r.choice([b"-L:G1", b"/L:", b"-L:0AZ", b"SA:0E", b"SA:0E,0G", b"SA:0E,00,00", b"/L:1G"]),
+                              ("malformed",)))
         else:
             items.append((r.choice([b"WD:P", b"TL:P", b"", b"ZZ:1"]), ("noise",)))
     return items
@@ -1038,6 +1086,7 @@ def run(ctx):
             sa_case(ctx, ctx.rng("w-sa"), model, rig, items=[      # same snapshot twice around contradicting events
                 (b"SA:0E," + z.encode(), ("snap", z)), (b"-L:02", ("ev", 2, True)), (b"-L:05", ("ev", 5, True)),
                 (b"SA:0E," + z.encode(), ("snap", z)), (None, ("dropped", 1, True)),
+                (b"SA:0E,FFFF", ("malformed", "truncated-sa")),
                 (b"SA:0E,02" + z[2:].encode(), ("snap", "02" + z[2:])), (b"/L:01", ("ev", 1, False))])
             for i in range(ctx.n(250, 3000)):
                 sa_case(ctx, ctx.rng("sa", i), model, rig)
